@@ -1405,7 +1405,9 @@ fn hostile_tables(bytes: &[u8], tabs: &mut Tables) -> Result<bool, String> {
             b"FEND" | b"SEND" => {
                 if let Some((solid, comp, enc, mode)) = cur.take() {
                     let cbc = enc != 0 && mode == 0;
-                    if solid && (comp != 0 || cbc) {
+                    // stored solid entries under every cipher and mode (CBC: the model's lazy reader,
+                    // Pipeline.decode_solid_lazy, yields the entries in front of a damaged end); compressed ones not
+                    if solid && comp != 0 {
                         return Ok(false);
                     }
                     if comp != 0 {
@@ -1446,20 +1448,114 @@ fn hostile_tables(bytes: &[u8], tabs: &mut Tables) -> Result<bool, String> {
 /// appended, the whole stream replaced, blocks duplicated or dropped.  Generated where the model predicts the outcome:
 /// stored entries under every cipher and mode (the real AES/Camellia are inside the model), compressed entries that
 /// are unencrypted or CTR-encrypted (the decompressor's verdict on the garbage is an oracle-table entry computed with
-/// the same reader types libpna uses), stored solid entries unencrypted or CTR.  Compressed + CBC and compressed solid
-/// streams are left out: a streaming decompressor that stops early never sees the padding error, and yields entries
-/// before a mid-stream error, neither of which the model's decode-then-decompress order expresses.
+/// the same reader types libpna uses), stored solid entries under every cipher and mode.  Compressed + CBC and
+/// compressed solid streams are left out: a streaming decompressor that stops early never sees the padding error, and
+/// yields entries before a mid-stream error, neither of which the model's decode-then-decompress order expresses.
+///
+/// Stored solid entries with CBC (AES and Camellia): SolidEntry::entries pulls its chunks from the decrypting reader as it
+/// goes, so a stream whose end is damaged yields the inner entries in front of the damage, then the error (bad padding:
+/// InvalidData) or a silent end (a partial last block: UnexpectedEof, which the iterator maps to None).  One in eight of
+/// the compressed solid scenarios is turned into a stored CBC one (at least two inner entries), and four kinds of damage
+/// aim at the boundary between two inner entries: the ciphertext is cut so that the plaintext the reader can deliver ends
+/// in the last block of an inner entry (exactly at its end when the entry ends on a block boundary, which the generator
+/// arranges for half of these scenarios) or in the first block behind it, as whole blocks (padding error) or with 1..15
+/// bytes of a further block (partial block).
 fn emit_hostile(r: &mut Rng, items: &[Item], pw: &str, bufs: &[usize]) -> Vec<String> {
+    let mut items: Vec<Item> = items.to_vec();
+    if let [Item::SB(cfg, _, inner)] | [Item::SA(cfg, inner)] = &mut items[..] {
+        if cfg.comp != 0 && r.chance(1, 8) {
+            cfg.comp = 0;
+            cfg.level = 1000;
+            if cfg.enc == 0 {
+                cfg.enc = 1 + r.below(2) as u8;
+            }
+            cfg.mode = 0;
+            while inner.len() < 2 {
+                let m = gen_len(r, false).min(300);
+                let i = inner.len();
+                inner.push(gen_spec(r, 'b', &STORE, i, m));
+            }
+        }
+    }
+    let cbc_solid = |c: &Cfg| c.comp == 0 && c.enc != 0 && c.mode == 0;
+    let has_cbc_solid = items.iter().any(|it| matches!(it, Item::SB(c, _, _) | Item::SA(c, _) if cbc_solid(c)));
     let mut tabs = Tables::default();
-    let (bytes, _texts) = match produce(items, pw, &mut tabs) {
+    let (mut bytes, _texts) = match produce(&items, pw, &mut tabs) {
         Ok(x) => x,
         Err(_) => return Vec::new(),
     };
+    // for every stored CBC solid entry: the bytes of its SDAT run and the plaintext offsets at which an inner entry ends
+    let solid_bounds = |bytes: &[u8], tabs: &Tables| -> Vec<(Vec<u8>, Vec<usize>)> {
+        let mut out = Vec::new();
+        let cs = match refdec::part_chunks(bytes) {
+            Ok(c) => c,
+            Err(_) => return out,
+        };
+        let mut cur: Option<(u8, u8, u8)> = None;
+        let mut phsf: Option<Vec<u8>> = None;
+        let mut data: Vec<u8> = Vec::new();
+        for c in cs {
+            match &c.ty {
+                b"SHED" if c.data.len() >= 5 => {
+                    cur = Some((c.data[2], c.data[3], c.data[4]));
+                    phsf = None;
+                    data.clear();
+                }
+                b"FHED" => cur = None,
+                b"PHSF" => phsf = Some(c.data.clone()),
+                b"SDAT" => data.extend_from_slice(&c.data),
+                b"SEND" => {
+                    if let Some((comp, enc, mode)) = cur.take() {
+                        if comp == 0 && enc != 0 && mode == 0 && data.len() >= 32 {
+                            let key = phsf.as_ref().and_then(|p| tabs.v.iter().find(|(q, _)| q == p).map(|(_, k)| k.clone()));
+                            let pt = key.and_then(|k| refdec::Block::new(enc, &k).ok()).and_then(|b| refdec::cbc_decrypt(&b, &data[..16], &data[16..]).ok());
+                            if let Some(pt) = pt {
+                                let mut bounds = Vec::new();
+                                let mut pos = 0usize;
+                                while pos + 12 <= pt.len() {
+                                    let l = u32::from_be_bytes([pt[pos], pt[pos + 1], pt[pos + 2], pt[pos + 3]]) as usize;
+                                    let fend = &pt[pos + 4..pos + 8] == b"FEND";
+                                    pos += 12 + l;
+                                    if fend && pos <= pt.len() {
+                                        bounds.push(pos);
+                                    }
+                                }
+                                out.push((data.clone(), bounds));
+                            }
+                        }
+                    }
+                }
+                _ => {}
+            }
+        }
+        out
+    };
+    let mut info = if has_cbc_solid { solid_bounds(&bytes, &tabs) } else { Vec::new() };
+    // half of the single-solid scenarios: the first inner entry is made to end on a cipher-block boundary
+    if let ([Item::SB(_, _, inner)] | [Item::SA(_, inner)], [(_, bounds)]) = (&mut items[..], &info[..]) {
+        let off = bounds.first().map(|b| b % 16).unwrap_or(0);
+        if off != 0 && r.chance(1, 2) {
+            if let Some(w) = inner.first_mut().filter(|s| s.kind == 0).and_then(|s| s.writes.last_mut()).filter(|w| !w.is_empty()) {
+                w.extend(r.bytes(16 - off));
+                let mut t2 = Tables::default();
+                match produce(&items, pw, &mut t2) {
+                    Ok((b2, _)) => {
+                        bytes = b2;
+                        tabs = t2;
+                        info = solid_bounds(&bytes, &tabs);
+                    }
+                    Err(_) => return Vec::new(),
+                }
+            }
+        }
+    }
     let cuts = gen_cuts(r);
-    let how = r.below(8);
+    let how = if has_cbc_solid { r.below(12) } else { r.below(8) };
     let mut rr = r.clone();
     let mut f = |mut b: Vec<u8>| -> Vec<u8> {
         let n = b.len();
+        let bounds: Vec<usize> = info.iter().find(|(d, _)| *d == b).map(|(_, v)| v.clone()).unwrap_or_default();
+        let how = if how >= 8 && bounds.is_empty() { how - 8 } else { how };
         match how {
             0 => {
                 // flip one to three bytes
@@ -1503,9 +1599,23 @@ fn emit_hostile(r: &mut Rng, items: &[Item], pw: &str, bufs: &[usize]) -> Vec<St
                 }
                 b
             }
-            _ => {
+            7 => {
                 let m = rr.below(50) as usize;
                 rr.bytes(m)
+            }
+            _ => {
+                // a stored CBC solid stream cut at the end of an inner entry: the reader delivers the plaintext of all
+                // blocks but the last one it was given (the look-ahead block fails to unpad, or is followed by a partial
+                // block).  8/10: what it delivers ends in the block holding the last byte of the entry (at the entry's
+                // end when that is a block boundary); 9/11: in the block behind it.  10/11: a partial block follows.
+                let bd = bounds[rr.below(bounds.len() as u64) as usize];
+                let delivered = if how == 8 || how == 10 { bd / 16 } else { bd / 16 + 1 };
+                let mut keep = 16 + 16 * (delivered + 1);
+                if how >= 10 {
+                    keep += 1 + rr.below(15) as usize;
+                }
+                b.truncate(keep.min(n));
+                b
             }
         }
     };
